@@ -137,6 +137,26 @@ def run(ctx):
             if h.aborted:
                 ctx.count('history_aborted')
                 continue
+            # the operator adds a required trait no server of the partition offers to an allocation that has a placed
+            # instance (an 'allocations' event: the Allocation object is changed in place, every instance re-loaded)
+            retraited = False
+            Hh = h.drv.H
+            if Hh.trait_bits and rng.random() < 0.5:
+                pm = {n: a.server for n, a in sorted(h.drv.cell.apps.items()) if a.server}
+                cands = [n for n in pm if n in Hh.apps and Hh.apps[n]['alloc'][1] and not Hh.apps[n]['traits']
+                         and not Hh.allocs[(Hh.apps[n]['alloc'][0], tuple(Hh.apps[n]['alloc'][1]))]['traits']]
+                if cands:
+                    x = rng.choice(cands)
+                    key = (Hh.apps[x]['alloc'][0], tuple(Hh.apps[x]['alloc'][1]))
+                    offered = 0
+                    for sv in Hh.servers.values():
+                        if sv['label'] == key[0]:
+                            offered |= sv['traits']
+                    missing = [b for b in Hh.trait_bits if not offered & b]
+                    if missing:
+                        h.drv.op_alloc_update(key, dict(Hh.allocs[key], traits=missing[0]), force=True)
+                        retraited = True
+                        ctx.count('allocation_given_unoffered_trait_before_probes')
             if not probe.settle(h):
                 ctx.count('not_quiescent_discarded')
                 continue
@@ -146,7 +166,7 @@ def run(ctx):
             for k in range(PROBES):
                 prng = ctx.case_rng(idx, 'probe%d' % k)
                 h.drv.rng = prng
-                spec, rank = probe.gen_probe(h, prng, k)
+                spec, rank = probe.gen_probe(h, prng, k, force_mode='clone-traitless' if retraited and k < 2 else None)
                 now = h.clock.peek()
                 fit, ident_free = probe.leaf_scan(h, spec, now)
                 res = probe.run_probe_child(h, spec, rank, decoys=prng.random() < 0.3)
